@@ -100,10 +100,8 @@ theorem removeConsolidate_none_left (f : Forest) (n : Option Nat) :
   unfold removeConsolidate; split <;> rfl
 
 theorem addConsolidate_none (f : Forest) (n : Nat) : f.addConsolidate n none none = (f, false) := by
-  unfold addConsolidate
-  split
-  · rfl
-  · cases f.textOf n <;> rfl
+  rw [addConsolidate_eq_old, selfPrev_none, selfNext_none]
+  exact addConsolidateOld_none_none f n
 
 end Forest
 end XotModel
